@@ -363,6 +363,11 @@ func (c *canon) stmt(s ast.Stmt) string {
 		return strings.Join(out, ";") // a zero-valued `var x T` declares a name and decides nothing
 	case *ast.IncDecStmt:
 		return c.expr(x.X) + x.Tok.String()
+	case *ast.BranchStmt: // break / continue / goto / fallthrough
+		if x.Label != nil {
+			return x.Tok.String() + " " + x.Label.Name
+		}
+		return x.Tok.String()
 	}
 	return c.fail(s, "statement of kind %T is outside the grammar the extractor understands", s)
 }
@@ -686,7 +691,7 @@ func tables2Diff(repo string, o *tOut) error {
 		return fmt.Errorf("diff/diff.go: no ModificationType constants found")
 	}
 	sort.Slice(mts, func(i, j int) bool { return mts[i][0] < mts[j][0] })
-	o.pairsT("diffModTypes", "the constants of type diff.ModificationType: name, value (sorted by name)", mts)
+	o.pairsT("diffModTypes", "the constants of type diff.ModificationType (diff/diff.go): name, value (sorted by name)", mts)
 
 	// ---- apply.go: applySingle
 	as, err := p.fn("apply.go", "", "applySingle")
@@ -1036,6 +1041,7 @@ func tables2Analytics(repo string, o *tOut) error {
 	// defaultOpts = []AddLayerOpt{WithTags(wildcardTag)}
 	var defs [][2]string
 	found := false
+	defPos := ""
 	for _, d := range p.files[file].Decls {
 		gd, ok := d.(*ast.GenDecl)
 		if !ok || gd.Tok != token.VAR {
@@ -1052,6 +1058,7 @@ func tables2Analytics(repo string, o *tOut) error {
 					return fmt.Errorf("%s: defaultOpts is not a slice literal", p.pos(n))
 				}
 				found = true
+				defPos = p.pos(n)
 				for _, el := range cl.Elts {
 					call, ok := el.(*ast.CallExpr)
 					if !ok {
@@ -1083,7 +1090,7 @@ func tables2Analytics(repo string, o *tOut) error {
 	if !found {
 		return fmt.Errorf("analytics/%s: `defaultOpts = []AddLayerOpt{…}` not found", file)
 	}
-	o.pairsT("docsetDefaultOpts", "analytics.defaultOpts: option constructor, its (resolved, comma-joined) string arguments — in order", defs)
+	o.pairsT("docsetDefaultOpts", "analytics.defaultOpts ("+defPos+"): option constructor, its (resolved, comma-joined) string arguments — in order", defs)
 	// the option constructors: `return func(ds, name, ctx) { … }`; inside, ctx is `own`; a nested
 	// `ctx.mergeFn = func(other, doc) error {…}` is printed with `other` / `doc`
 	o.sb.WriteString("/-- the option constructors of analytics: what the returned closure does to the context under construction (`own`);\n    the closure stored in own.mergeFn is called by addContext as mergeFn(existing context = `other`, new document = `doc`) -/\ndef docsetOptions : List (String × List String) := [\n")
